@@ -521,6 +521,20 @@ func runC03(c *core.Ctx) {
 		srv := pool.Servers[wk]
 		r := c.Rng("random", i)
 		w := c03World(r, i%2 == 0)
+		if i%8 == 5 && !w.Exact && len(w.Log) > 0 {
+			// quantities around the limits of the 64-bit integers, written as plain integers (the model bounds the error
+			// of every row by the sum of the absolute quantities below it)
+			for k := 0; k < 1+r.Intn(2); k++ {
+				d := r.Intn(len(w.Log))
+				if len(w.Log[d].Ents) == 0 {
+					continue
+				}
+				name := w.Log[d].Ents[r.Intn(len(w.Log[d].Ents))].Name
+				w.Log[d].Ents = append(w.Log[d].Ents, gen.Ent{Name: name + "/big", Val: gen.N(gen.MachineLimitInts[r.Intn(len(gen.MachineLimitInts))])})
+			}
+			w.LogText = gen.RenderLog(w.Log, w.Layout, nil)
+			c.Count("random_worlds_with_quantities_at_the_integer_limits", 1)
+		}
 		srv.Write(w.Files())
 		q, qa := model.Quantities(w.Log)
 		var foods []string
@@ -541,7 +555,8 @@ func runC03(c *core.Ctx) {
 		}
 		samt, sabs := map[string]*big.Rat{}, map[string]*big.Rat{}
 		for _, d := range w.Log {
-			for _, e := range model.MergeDay(d) {
+			// entry by entry (not merged per day): the error bound is the sum of the absolute terms
+			for _, e := range d.Ents {
 				if es, ok := w.Res[e.Name]; ok {
 					if k := indexElem(es, x); k >= 0 {
 						if samt[e.Name] == nil {
